@@ -4,7 +4,7 @@
    their mathematical value.  F: where the code refutes the property. *)
 From Coq Require Import ZArith List Bool Lia.
 From ZV Require Import Model.Regex Generated.LexTables Model.Lexer Model.Reader Model.Printer
-  Proofs.LexerProofs Proofs.PrinterLex Proofs.RegexSem Proofs.Classify.
+  Proofs.LexerProofs Proofs.ReaderProofs Proofs.PrinterLex Proofs.RegexSem Proofs.Classify.
 Import ListNotations.
 Open Scope Z_scope.
 
@@ -1689,4 +1689,98 @@ Proof.
     replace (c =? 105) with false by (symmetry; apply Z.eqb_neq; unfold digit in Hc; lia). reflexivity.
   - unfold formA. cbn [app]. apply hexd_no_sign. left; exact Hc.
   - unfold formA. cbn [app list_eqb str_NaN]. replace (c =? 78) with false by (symmetry; apply Z.eqb_neq; unfold digit in Hc; lia). reflexivity.
+Qed.
+
+(* ======== the REPL front end: the printed text delivered line by line (or cut anywhere) ======== *)
+
+Lemma lex_prefix_ok : forall a b s, lres_ok (lex_all s (a ++ b)) = true -> lres_ok (lex_all s a) = true.
+Proof.
+  intros a b s H. rewrite lex_all_app in H. destruct (lex_all s a); [reflexivity|exact H].
+Qed.
+
+Lemma pieces_ok_of_whole : forall rest t, lres_ok (lex_all init_lstate (t ++ concat rest)) = true -> pieces_ok true t rest.
+Proof.
+  induction rest as [|c rest IH]; intros t H; [exact I|]. cbn [pieces_ok concat] in *.
+  split; [eapply lex_prefix_ok; exact H|]. split; [left; reflexivity|].
+  apply IH. rewrite <- app_assoc. exact H.
+Qed.
+
+Lemma split_lines_from_concat : forall t cur, concat (split_lines_from cur t) = rev cur ++ t.
+Proof.
+  induction t as [|c t IH]; intros cur; cbn [split_lines_from].
+  - cbn [concat]. rewrite !app_nil_r. reflexivity.
+  - destruct (c =? 10).
+    + cbn [concat]. rewrite IH. cbn [rev app]. rewrite <- app_assoc. reflexivity.
+    + rewrite IH. cbn [rev]. rewrite <- app_assoc. reflexivity.
+Qed.
+
+Lemma split_lines_concat : forall t, concat (split_lines t) = t.
+Proof. intros. unfold split_lines. rewrite split_lines_from_concat. reflexivity. Qed.
+
+(* however the printed text is cut into pieces (the REPL: into its lines), the reader returns the value *)
+Theorem read_print_data_pieces : forall is_print v fuel pieces, dat is_print false v -> (vsize v + 3 <= fuel)%nat ->
+  concat pieces = print is_print v ->
+  observe (parse_pieces true false fuel pieces) = (StDone, [to_sexp v]).
+Proof.
+  intros ip v fuel pieces D Hf Hc.
+  rewrite ReaderProofs.pieces_is_whole.
+  - rewrite Hc. apply read_print_data; assumption.
+  - destruct (data_lexes ip v D init_lstate [] 0 10 delim_10 can_start_0) as [s' [El _]].
+    { destruct init_ring_ok as [R1 R2]. split; try reflexivity; assumption. }
+    assert (lres_ok (lex_all init_lstate (concat (mark_last pieces))) = true) as Hok
+      by (rewrite ReaderProofs.concat_mark_last, Hc; unfold nl; rewrite El; reflexivity).
+    destruct (mark_last pieces) as [|first rest]; [exact I|].
+    apply pieces_ok_of_whole. exact Hok.
+Qed.
+
+Theorem read_print_repl : forall is_print v fuel, dat is_print false v -> (vsize v + 3 <= fuel)%nat ->
+  observe (parse_pieces true false fuel (split_lines (print is_print v))) = (StDone, [to_sexp v]).
+Proof. intros. apply (read_print_data_pieces is_print v); auto. apply split_lines_concat. Qed.
+
+(* ======== acceptance: a prefixed ULL literal with valid digits and a value below 2^64 IS converted
+   (incl. all-zero digits: 0x0ULL, 0o000ULL) ======== *)
+
+Lemma hexd_digit_val : forall c, hexd c -> digit_val c = Some (digit_of c) /\ 0 <= digit_of c < 16.
+Proof.
+  intros c H. unfold digit_val, digit_of. destruct H as [H|[H|H]].
+  - replace ((48 <=? c) && (c <=? 57)) with true by (symmetry; apply andb_true_iff; split; apply Z.leb_le; lia). split; [reflexivity|lia].
+  - replace ((48 <=? c) && (c <=? 57)) with false by (symmetry; apply andb_false_iff; right; apply Z.leb_gt; lia).
+    replace ((97 <=? c) && (c <=? 122)) with false by (symmetry; apply andb_false_iff; left; apply Z.leb_gt; lia).
+    replace ((97 <=? c) && (c <=? 102)) with false by (symmetry; apply andb_false_iff; left; apply Z.leb_gt; lia).
+    replace ((65 <=? c) && (c <=? 90)) with true by (symmetry; apply andb_true_iff; split; apply Z.leb_le; lia).
+    split; [f_equal; lia|lia].
+  - replace ((48 <=? c) && (c <=? 57)) with false by (symmetry; apply andb_false_iff; right; apply Z.leb_gt; lia).
+    replace ((97 <=? c) && (c <=? 122)) with true by (symmetry; apply andb_true_iff; split; apply Z.leb_le; lia).
+    replace ((97 <=? c) && (c <=? 102)) with true by (symmetry; apply andb_true_iff; split; apply Z.leb_le; lia).
+    split; [f_equal; lia|lia].
+Qed.
+
+Lemma digits_val_ok : forall base s acc, Forall (fun c => hexd c /\ digit_of c < base) s ->
+  digits_val base s acc = Some (acc * base ^ Z.of_nat (length s) + pos_value base (map digit_of s)).
+Proof.
+  intros base s. induction s as [|c s IH]; intros acc F.
+  - cbn. f_equal. lia.
+  - inversion F as [|x l [Hc Hb] F']; subst. cbn [digits_val]. destruct (hexd_digit_val c Hc) as [E _]. rewrite E.
+    replace (digit_of c <? base) with true by (symmetry; apply Z.ltb_lt; exact Hb).
+    rewrite (IH _ F'). cbn [map pos_value length]. rewrite map_length. rewrite Nat2Z.inj_succ, Z.pow_succ_r by lia. f_equal. ring.
+Qed.
+
+Theorem ull_prefixed_accepted : forall pf n h hs, (n = NUHex \/ n = NUOct) ->
+  Forall (fun c => hexd c /\ digit_of c < notation_base n) (h :: hs) ->
+  pos_value (notation_base n) (map digit_of (h :: hs)) < 2 ^ 64 ->
+  atom_value pf (mkTok TUint64 (spell n false (h :: hs))) = Some (RUint (pos_value (notation_base n) (map digit_of (h :: hs)))).
+Proof.
+  intros pf n h hs Hn F Hv. unfold atom_value. cbn [t_kind t_str]. unfold conv_uint64.
+  assert (forall p, 2 <? byte_len ([48; p] ++ h :: hs) = true) as Hb.
+  { intros p. apply Z.ltb_lt. cbn [app byte_len]. pose proof (byte_len_nonneg hs). unfold utf8_len.
+    destruct (48 <? 128), (48 <? 2048), (48 <? 65536), (p <? 128), (p <? 2048), (p <? 65536), (h <? 128), (h <? 2048), (h <? 65536); lia. }
+  destruct Hn as [H|H]; subst n; cbn [spell notation_base] in *.
+  - replace ([48; 120] ++ (h :: hs) ++ str_ULL) with (([48; 120] ++ h :: hs) ++ str_ULL) by (rewrite <- app_assoc; reflexivity).
+    change 3%nat with (length str_ULL). rewrite firstn_app_len. rewrite Hb.
+    cbn [app starts_with Z.eqb Pos.eqb andb skipn]. unfold parse_uint. rewrite (digits_val_ok 16 (h :: hs) 0 F).
+    rewrite Z.mul_0_l, Z.add_0_l. replace (_ <? 2 ^ 64) with true by (symmetry; apply Z.ltb_lt; exact Hv). reflexivity.
+  - replace ([48; 111] ++ (h :: hs) ++ str_ULL) with (([48; 111] ++ h :: hs) ++ str_ULL) by (rewrite <- app_assoc; reflexivity).
+    change 3%nat with (length str_ULL). rewrite firstn_app_len. rewrite Hb.
+    cbn [app starts_with Z.eqb Pos.eqb andb skipn]. unfold parse_uint. rewrite (digits_val_ok 8 (h :: hs) 0 F).
+    rewrite Z.mul_0_l, Z.add_0_l. replace (_ <? 2 ^ 64) with true by (symmetry; apply Z.ltb_lt; exact Hv). reflexivity.
 Qed.
